@@ -557,12 +557,15 @@ def running_rule(run, f, rid_inc, rid_dec, rid_rmw):
                 why.append("running is not incremented by fetch_add(1)")
             w = PathWalker(b)
             inc_blocks = {x for (x, _t, _m) in incs}
+            n_ex = n_inf = 0
             for (pth, _c, sv) in w.walk(0, lambda bid, t: ("return",) if t["k"] == "return" else None):
                 if sv[0] != "return":
                     continue
                 oc, feasible = result_outcomes(b, du, pth)
                 if not feasible:
+                    n_inf += 1
                     continue
+                n_ex += 1
                 n = len([x for x in pth if x in inc_blocks])
                 created = sc[0][0] in pth and oc.get(sc[0][0]) == "ok"
                 if sc[0][0] in pth and oc.get(sc[0][0]) is None:
@@ -573,6 +576,8 @@ def running_rule(run, f, rid_inc, rid_dec, rid_rmw):
                     why.append("a created worker is counted %d times" % n)
                 elif not created and n:
                     why.append("running is incremented on a path where no worker was created (creation failed or was refused)")
+        if len(sc) == 1 and incs:
+            run.paths(rid_inc, "submit_co/increment", b.loc(), n_ex, n_inf)
         if why:
             run.fail(rid_inc, "submit_co/increment", b.loc(), "; ".join(sorted(set(why))))
         else:
